@@ -1,5 +1,6 @@
 CONSTANTS
   DEVS = {}
+  NEAR = FALSE
 SPECIFICATION Spec
 INVARIANTS Inv_Contract Inv_L1
 CHECK_DEADLOCK FALSE
